@@ -19,7 +19,7 @@ pub struct Root<T> { p: core::marker::PhantomData<T> }
 pub struct ObjString { }
 pub struct ObjFunction { }
 pub struct Upvalue { }
-//@enum file=yarel/src/scanner.rs name=TokenKind
+//@enum file=yarel/src/scanner.rs name=TokenKind eq=1
 //@enum file=yarel/src/error.rs name=ErrorKind
 //@struct file=yarel/src/scanner.rs name=Token clone=1
 // host-side error: its kind and how many message lines it carries
